@@ -492,6 +492,12 @@ let cmd_pg (x : sx) : sx =
             { c with cargs = k :: List.sort (fun a b -> compare (show (pgkey_sx a)) (show (pgkey_sx b))) others }
         | _ -> c in
       res_sx (fun cs -> L (List.map (fun c -> pgcons_sx (canon c)) cs)) (pg_constraint_vec (sx_pghost g) (sx_n root))
+  | L [A "pg-good"; g; root] ->
+      (* the hypothesis of pg_single_reports_embedding, evaluated on the pattern *)
+      let gh = sx_pghost g and r = sx_n root in
+      (match pg_cvec_full gh r with
+       | Ok (cs, nk) -> bool_sx (pg_good_pattern gh r cs nk && lines_sound gh r && keys_distinct nk && pg_host_wfb gh)
+       | _ -> A "0")
   | L [A "pg-cover"; g; root] ->
       let gh = sx_pghost g and r = sx_n root in
       (match pg_cvec_full gh r with
@@ -561,7 +567,7 @@ let dispatch (x : sx) : sx =
   | L (A ("tree" | "powerset" | "conditioned" | "with-children" | "pairwise" | "transitive") :: _) -> cmd_c10 x
   | L ((A ("aut-run" | "cvec" | "single" | "naive" | "cert" | "occ")) :: _ as args) -> cmd_engine args
   | L (A ("tab-run" | "tab-cert") :: _) -> cmd_tab x
-  | L (A ("pg-opts" | "pg-walk" | "pg-single" | "pg-naive" | "pg-run" | "pg-cert" | "pg-cvec" | "pg-cover" | "pg-hostwf") :: _) -> cmd_pg x
+  | L (A ("pg-opts" | "pg-walk" | "pg-single" | "pg-naive" | "pg-run" | "pg-cert" | "pg-cvec" | "pg-cover" | "pg-good" | "pg-hostwf") :: _) -> cmd_pg x
   | _ -> failwith "unknown command"
 
 let () =
